@@ -349,6 +349,9 @@ func function(fn *ssa.Function) J {
 		return j
 	}
 	bs := []J{}
+	if fn.Recover != nil {
+		j["recover_block"] = fn.Recover.Index
+	}
 	for _, b := range fn.Blocks {
 		bj := J{"index": b.Index, "comment": b.Comment}
 		pr := []int{}
